@@ -38,17 +38,40 @@ var (
 	vpServedAs string
 )
 
-func vpNewBuilder() *rdp.Builder { return &rdp.Builder{} }
+// vpRealBuilder: the harness runs the repository's real RDP builder (package rdp, with the shared koanf /
+// mapstructure models below it) instead of the empty stand-in.
+var vpRealBuilder bool
+var vpServedBody string
+
+func vpNewBuilder() *rdp.Builder {
+	if vpRealBuilder {
+		return rdp.NewBuilder()
+	}
+	return &rdp.Builder{}
+}
 func vpNewBuilderFromFile(f string) (*rdp.Builder, error) {
+	if vpRealBuilder {
+		return rdp.NewBuilderFromFile(f)
+	}
 	if vpBool("template-unreadable") {
 		return nil, errors.New("vp: cannot load template")
 	}
 	return &rdp.Builder{}, nil
 }
-func vpBuilderString(b *rdp.Builder) string { vpBuilt = b; return "RDPFILE" }
+func vpBuilderString(b *rdp.Builder) string {
+	vpBuilt = b
+	if vpRealBuilder {
+		return b.String()
+	}
+	return "RDPFILE"
+}
 func vpServeContent(w http.ResponseWriter, r *http.Request, name string, t time.Time, c io.ReadSeeker) {
 	vpServed++
 	vpServedAs = name
+	if vpRealBuilder {
+		data, _ := io.ReadAll(c)
+		vpServedBody = string(data)
+	}
 	w.WriteHeader(200)
 }
 func vpRandNew(s rand.Source) *rand.Rand     { return nil }
